@@ -27,6 +27,7 @@ package main
 //@   ensures {C19} @internal [success-prints-exactly-the-serialised-result-once] result == 0 && !deref(astOnly) ==> \stdoutCount == old(\stdoutCount) + 1 && \stdoutText == old(\stdoutText) + (strOfBytes(marshalOf(\ret(Search, 0))) + "\n")
 //@   ensures {C19} @internal [the-result-is-what-search-returns-for-the-expression-and-the-decoded-input] result == 0 && !deref(astOnly) ==> isNil(\ret(Search, 1)) && \arg(Search, 0) == expression && jsonValid(inputData) && same(\arg(Search, 1), jsonDecodeOf(inputData))
 //@   ensures {C19} @internal [input-is-the-named-file-or-standard-input] result == 0 && !deref(astOnly) ==> same(inputData, deref(inputFile) != "" ? fileBytes(deref(inputFile)) : stdinBytes())
+//@   ensures {C19} @internal [the-input-file-is-given-by-the-flag-named-input] flagName(inputFile) == "input" && flagName(astOnly) == "ast"
 //@   ensures {C19} @internal [the-expression-is-the-single-argument] result == 0 ==> len(args) == 1 && expression == args[0]
 //@   ensures {C19} @internal [an-invalid-expression-fails] len(args) == 1 && !isNil(\ret(Parse, 1)) ==> result == 1
 //@   ensures {C19} @internal [unreadable-input-fails] len(args) == 1 && isNil(\ret(Parse, 1)) && !deref(astOnly) && !(deref(inputFile) != "" ? fileOK(deref(inputFile)) : stdinOK()) ==> result == 1
